@@ -102,7 +102,12 @@ def run_families(run, fams, model_args=()):
             rc, path, sc, tr = harness(["-mode", "batch", "-family", fam, "-n", n, "-seed", seed])
         rcm, out = _model(path, model_args)
         os.unlink(path)
-        r, cv, sm, _ = parse_model(out)
+        r, cv, sm, mm = parse_model(out)
+        if mm:
+            # MISMATCH lines of the driver in trace mode = event lines it could not parse: part of the trace was
+            # not checked at all (audit-2 L8: these lines used to be dropped)
+            run.violation("harness-failed:unparsed-events:" + fam, {"family": fam, "lines": mm[:20]},
+                          "the model driver could not parse %d event line(s) of family %s: %s" % (len(mm), fam, mm[0][:160]), True)
         if rc != 0 or rcm != 0 or "SUMMARY" not in out or len(r) != n:
             run.violation("harness-failed:" + fam, {"family": fam, "out": out[-1500:]},
                           "composite harness or model driver failed to run family %s" % fam, True)
@@ -177,6 +182,24 @@ def has_dup_names(script):
     return False
 
 
+def same_name_different_object(script):
+    """The shape of the recorded finding same-name-different-object:inplace-reload: a Reload() whose new
+    configuration has the same runnable NAMES with the same multiplicities as the one in force (so that it
+    is reloaded in place) but not the same runnable OBJECTS."""
+    sc = json.loads(script)
+    names = [p["name"] for p in sc["pool"]]
+    cur = sc.get("init") or []
+    for o in sc["ops"]:
+        if o["op"] != "reload" or o.get("cb") != "some":
+            continue
+        new = o.get("cfg") or []
+        if sorted(names[e["c"]] for e in cur) == sorted(names[e["c"]] for e in new) \
+                and sorted(e["c"] for e in cur) != sorted(e["c"] for e in new):
+            return True
+        cur = new
+    return False
+
+
 def short(sig):
     return hashlib.sha1(sig.encode()).hexdigest()[:8]
 
@@ -220,6 +243,8 @@ def key_for(pid, r, script, trace=None):
         return "stale-stop-on-restarted-child"
     if pid == "C09" and v == 21 and r.get("shape") == "stop-between-setconfig-and-boot":
         return "stop-between-setconfig-and-boot"
+    if pid == "C09" and v in (20, 21) and script and same_name_different_object(script):
+        return "same-name-different-object:inplace-reload"
     if pid == "C11" and script and has_dup_names(script):
         return "duplicate-entry-names"
     sig = op_sig(script) if script else r["id"]
